@@ -54,7 +54,9 @@ Step(a, tok, later) ==
     [] tok = "CATCH"   -> IF c = "try" THEN Acc(Repl(s, "catch"), "body", "accept") ELSE Acc(s, "body", "unspec")
     [] tok = "END"     -> IF c = "top" THEN Acc(s, "body", "reject") ELSE Acc(Pop(s), "body", "accept")
     [] tok = "OPEN_ACTION"  -> Acc(s, "body", "reject")
-    [] tok = "OPEN_COMMENT" -> IF hasLater({"COMMENT"}) THEN Acc(s, a.hdr, "unspec") ELSE Acc(s, a.hdr, "reject")
+    [] tok = "OPEN_COMMENT" -> IF hasLater({"COMMENT", "OPEN_COMMENT_OVERLAP"}) THEN Acc(s, a.hdr, "unspec") ELSE Acc(s, a.hdr, "reject")
+    \* the opening marker directly followed by the tail of the closing one ("{*}"): the comment is still open
+    [] tok = "OPEN_COMMENT_OVERLAP" -> IF hasLater({"COMMENT", "OPEN_COMMENT_OVERLAP"}) THEN Acc(s, a.hdr, "unspec") ELSE Acc(s, a.hdr, "reject")
     [] tok = "OPEN_STRING"  -> IF hasLater({"OPEN_STRING", "EXTENDS", "IMPORT", "INCLUDE"}) THEN Acc(s, "body", "unspec")
                                ELSE Acc(s, "body", "reject")
 
